@@ -644,6 +644,69 @@ fn check_limit(limit: usize, cx: &Cx, want_sample: bool, rep: &mut Report) {
         });
         note_panics("factorize", panics, limit, &mut notes, rep);
         rep.count("factorizations", limit as u64);
+        // ---- numbers rich in distinct primes: every skipping entry point exactly (nth(k), skip(k), step_by(k + 1) for every
+        // k up to one past the number of prime powers) - a shortcut keyed on "how many primes can be left" lives here
+        if limit >= 30030 && !min_prime_bad {
+            let mut rich = 0u64;
+            let panics = guarded(30030, limit, |n| {
+                // cheap pre-filter: at least 3 of the 5 smallest primes divide n
+                let small = (n % 2 == 0) as u32 + (n % 3 == 0) as u32 + (n % 5 == 0) as u32 + (n % 7 == 0) as u32 + (n % 11 == 0) as u32;
+                if small < 3 {
+                    return;
+                }
+                let want: Vec<(i32, i32)> = want_factors(t, n).iter().map(|&(p, e)| (p as i32, e as i32)).collect();
+                if want.len() < 6 && !(want.len() == 5 && n % 13 == 0) {
+                    return;
+                }
+                rich += 1;
+                for k in 0..=want.len() + 1 {
+                    let got_nth = lib!(sieve.factorize(n as i32).nth(k));
+                    let got_skip: Vec<(i32, i32)> = lib!(sieve.factorize(n as i32).skip(k).collect());
+                    let got_step: Vec<(i32, i32)> = lib!(sieve.factorize(n as i32).step_by(k + 1).collect());
+                    let want_step: Vec<(i32, i32)> = want.iter().cloned().step_by(k + 1).collect();
+                    let want_skip: Vec<(i32, i32)> = want.iter().cloned().skip(k).collect();
+                    if got_nth != want.get(k).cloned() || got_skip != want_skip || got_step != want_step {
+                        notes.note("factorize:iterator_protocol", n, || {
+                            Json::obj()
+                                .set("what", "factorize(n).nth(k) / .skip(k) / .step_by(k + 1) differ from the same calls on the list of prime powers")
+                                .set("n", n)
+                                .set("k", k)
+                                .set("nth", format!("{:?}", got_nth))
+                                .set("skip", format!("{:?}", got_skip))
+                                .set("step_by", format!("{:?}", got_step))
+                                .set("want", want_factor_json(t, n))
+                        });
+                        return;
+                    }
+                }
+            });
+            note_panics("factorize", panics, limit, &mut notes, rep);
+            rep.count("rich_numbers_with_every_skip_checked", rich);
+        }
+        // ---- the same table queried in random order (a scan in increasing n never asks for two far-apart numbers in a row)
+        if limit >= 1 << 20 && !min_prime_bad {
+            let mut r = Rng::new(mix(&[0x5af1, limit as u64]));
+            let count = (limit / 8).min(3_000_000);
+            let mut k = 0usize;
+            let mut cur = 2usize;
+            let panics = guarded(1, count, |_i| {
+                // two of three queries are uniform, the third lies a multiple of 2^k..2^k + 2^20 away from the previous one
+                cur = if k % 3 == 2 { (cur + ((1usize << (10 + r.below(14))) + r.below(1 << 20) as usize)) % (limit - 1) + 2 } else { 2 + r.below(limit as u64 - 1) as usize };
+                k += 1;
+                let n = cur.min(limit);
+                if let Some(kind) = check_factorize(sieve, t, n, &mut st) {
+                    notes.note(&format!("factorize:{}", kind), n, || {
+                        Json::obj()
+                            .set("what", "factorize(n), asked in random order, is not the prime factorisation of n")
+                            .set("n", n)
+                            .set("got", lib_factor_list(sieve, n))
+                            .set("want", want_factor_json(t, n))
+                    });
+                }
+            });
+            note_panics("factorize", panics, limit, &mut notes, rep);
+            rep.count("factorizations_in_random_order", count as u64);
+        }
         rep.count("factorize_iterator_protocol_scripts", protocol_scripts);
         entries += limit as u64;
         rep.max("max_exponent_seen", st.max_exponent);
